@@ -1041,9 +1041,168 @@ def _note(h, degrees, spheres, edges, fsets, nwrites):
                   'mesh invariant assumed: the vertex columns of conns hold ids of simplex nodes (< nSimplexNodes), all other columns ids < nNodes; '
                   'simplexNodesOrdinals holds ids < nSimplexNodes; contact edges join vertices 0,1,2',
                   'nodal field data have at least one row per mesh node (fewer rows raise IndexError in the real code before anything is written)')
-    h.outside('number formatting and value round-trip of coordinates/fields (plain data movement)',
-              'histories that add fields/spheres/edges between two write() calls; more than 3 spheres or 3 contact edges; 3-D meshes',
+    h.outside('number formatting (value placement is O3)',
+              'histories other than those of O4; more than 3 spheres or 3 contact edges; 3-D meshes',
               'binary VTK format (the writer only produces ASCII)')
+
+
+# ------------------------------------------------------------------------------------------ histories (O4)
+HISTORIES = {
+    # registrations interleaved with writes; 'write' = write() and check the file
+    'geometry_then_fields': ['write', 'sphere', 'write', 'edges', 'write', 'nodal', 'cell', 'write', 'edges', 'sphere', 'write'],
+    'fields_then_geometry': ['cell', 'write', 'edges', 'write', 'nodal', 'write', 'sphere', 'write'],
+}
+
+
+def make_history_harness(degrees, histories=('geometry_then_fields', 'fields_then_geometry')):
+    """registrations interleaved with writes on ONE writer: every file must satisfy all section goals for the registrations
+    made so far and equal (sections, declared counts, rows and values written) the file of a FRESH writer given the same
+    registrations; sizes symbolic as in O1"""
+    def fn(ex):
+        del _TOKENS[:]
+        symbolic = ex.symbolic
+        deg = choose(ex, 'degree_index', list(degrees))
+        nNodes, nSimplex, nElements = _sint(ex, 'nNodes'), _sint(ex, 'nSimplexNodes'), _sint(ex, 'nElements')
+        ex.assume(nSimplex >= 3)
+        ex.assume(nElements >= 1)
+        if deg == 1:
+            ex.assume(nNodes == nSimplex)
+        else:
+            ex.assume(nNodes >= nSimplex + 3 * (deg - 1))
+        hname = choose(ex, 'history', list(histories))
+        ops = HISTORIES[hname]
+        if not symbolic:
+            for nm, v in (('nNodes', nNodes), ('nSimplexNodes', nSimplex), ('nElements', nElements)):
+                if v > 2_000_000:
+                    raise Unsupported('replay: model size %s = %d is too large to build' % (nm, v))
+        ex.note('history %s = %s; degree %d, nNodes=%s nSimplexNodes=%s nElements=%s' % (hname, ops, deg, px.unwrap(nNodes), px.unwrap(nSimplex), px.unwrap(nElements)))
+
+        def run(backend):
+            mod = px.load_module(REL)
+            files, tmpdir = [], None
+            if backend == 'shape':
+                mod.np = ShapeNP()
+                mod.write_matrix_as_table = table_stub
+                mod.warnings = WarnRecorder()
+
+                def open_shim(name, mode='r', *a, **k):
+                    files.append(RecFile(name, mode))
+                    return files[-1]
+                mod.open = open_shim
+                mesh = SymMesh(deg, nNodes, nSimplex, nElements)
+                base = 'c20_history'
+                mk = lambda shape, dt: ShapeArr(shape, dt)
+            else:
+                if backend == 'jax':
+                    import jax.numpy as xp
+                else:
+                    xp = onp
+                mesh = real_mesh(deg, nNodes, nSimplex, nElements, xp)
+                tmpdir = tempfile.mkdtemp(prefix='c20_replay_')
+                base = os.path.join(tmpdir, 'out')
+
+                def mk(shape, dt):
+                    n = 1
+                    for q in shape:
+                        n *= q
+                    return xp.array((onp.arange(n) % 5).astype(dt).reshape(shape))
+            FT, DT = mod.VTKFieldType, mod.VTKDataType
+            nodal = [('temperature', mk((nNodes,), onp.float64), FT.SCALARS, DT.DOUBLE), ('node_id', mk((nNodes, 1), onp.int32), FT.SCALARS, DT.INT),
+                     ('stress', mk((nNodes, 2, 2), onp.float64), FT.TENSORS, DT.DOUBLE)]
+            cell = [('cell_id', mk((nElements,), onp.int32), FT.SCALARS, DT.INT), ('flux', mk((nElements, 2), onp.float64), FT.VECTORS, DT.DOUBLE)]
+            counters = dict(sphere=0, edge=0)
+
+            def registration(op):
+                """a closure that applies one registration to a writer (the same arguments for the long-lived and the fresh one)"""
+                if op == 'sphere':
+                    k = counters['sphere']
+                    counters['sphere'] += 1
+                    return lambda W: W.add_sphere(onp.array([0.25 * k, 1.5]), 0.5 + k)
+                if op == 'edges':
+                    k = counters['edge']
+                    counters['edge'] += 1
+                    return lambda W: W.add_contact_edges(onp.array([[k % 3, (k + 1) % 3]], dtype=onp.int64))
+                if op == 'nodal':
+                    return lambda W: [W.add_nodal_field(name=n, nodalData=a, fieldType=ft, dataType=dt) for n, a, ft, dt in nodal]
+                return lambda W: [W.add_cell_field(name=n, cellData=a, fieldType=ft, dataType=dt) for n, a, ft, dt in cell]
+
+            def text_of(W, fname):
+                W.write()
+                if backend == 'shape':
+                    return files[-1].text()
+                with open(fname) as fh:
+                    return fh.read()
+
+            regs, done, nwrite = [], [], 0
+            try:
+                with _pywarnings.catch_warnings():
+                    _pywarnings.simplefilter('ignore')
+                    W = mod.VTKWriter(mesh, baseFileName=base)
+                    for op in ops:
+                        if op != 'write':
+                            r = registration(op)
+                            r(W)
+                            regs.append(r)
+                            done.append(op)
+                            continue
+                        nwrite += 1
+                        text = text_of(W, base + '.vtk')
+                        nsph, nedge = done.count('sphere'), done.count('edges')
+                        expect = dict(point_arrays=[(ft.name, n, dt.value) for n, a, ft, dt in nodal] if 'nodal' in done else [],
+                                      cell_arrays=[(ft.name, n, dt.value) for n, a, ft, dt in cell] if 'cell' in done else [],
+                                      n_points=(nNodes if deg == 2 else nSimplex) + nsph, n_cells=nElements + nedge)
+                        if nsph:
+                            expect['point_arrays'].append(('SCALARS', 'sphere_radius', 'double'))
+                        stage = 'write %d of history %s, after %s' % (nwrite, hname, done or 'no registration')
+                        ex.note(stage + ('' if backend == 'shape' else ' (%s arrays): ' % backend + ' | '.join(l for l in text.split('\n') if l.split() and l.split()[0] in KEYWORDS[:5])))
+                        got = file_goals(ex, text, expect)
+                        # the same registrations on a fresh writer
+                        W2 = mod.VTKWriter(mesh, baseFileName=base + '_fresh')
+                        for r in regs:
+                            r(W2)
+                        ref = read_legacy_vtk(text_of(W2, base + '_fresh.vtk'))
+                        (h1, s1), (h2, s2) = read_legacy_vtk(text), ref
+                        st1, n1 = _signature(s1)
+                        st2, n2 = _signature(s2)
+                        same = (h1 == h2 and st1 == st2 and len(n1) == len(n2))
+                        ex.goal('history_file_has_the_sections_of_a_fresh_writer', Holds(same), info='%s: %s | fresh writer: %s' % (stage, [q[0] for q in st1], [q[0] for q in st2]))
+                        if same and n1:
+                            diff = [(_show(a), _show(b)) for a, b in zip(n1, n2) if _show(a) != _show(b)]
+                            ex.goal('history_file_has_the_counts_of_a_fresh_writer', Eq(n1, n2),
+                                    info='%s: (this writer, fresh writer) declared counts / rows / values that are not literally the same: %s' % (stage, diff[:8]))
+            except CODE_ERRORS as e:
+                ex.goal(DEFINED, Holds(False), info='%s: %s | history %s after %s (arrays: %s)' % (type(e).__name__, e, hname, done, backend))
+                return
+            finally:
+                if tmpdir:
+                    shutil.rmtree(tmpdir, ignore_errors=True)
+            ex.goal(DEFINED, Holds(True))
+
+        for backend in (('shape',) if symbolic else ('jax', 'numpy')):
+            run(backend)
+    return fn
+
+
+HISTORY_GOALS = ['history_file_has_the_sections_of_a_fresh_writer', 'history_file_has_the_counts_of_a_fresh_writer', 'sections_in_legacy_order',
+                 'points_declared_eq_rows_written', 'points_declared_eq_output_nodes_plus_spheres', 'cells_declared_eq_elements_plus_contact_edges',
+                 'cells_declared_count_eq_rows_written', 'cells_declared_size_eq_integers_written', 'cell_types_declared_eq_cells_declared',
+                 'point_data_declared_eq_points_declared', 'cell_data_declared_eq_cells_declared', 'point_array_records_eq_points_declared',
+                 'cell_array_records_eq_cells_declared', 'sphere_radius_records_eq_points_declared', 'array_rows_have_the_declared_data_type_kind', DEFINED]
+
+
+def _register_history():
+    for d in (1, 2, 3, 4):
+        def ob(h, d=d):
+            """histories: registrations (spheres, contact edges, nodal fields, cell fields) interleaved with write() calls on one
+            writer; each of the files satisfies every section goal for the registrations made so far and has the sections, declared
+            counts, rows and values of the file a fresh writer produces from the same registrations (nothing stale, nothing lost)"""
+            _note(h, (d,), ('added one at a time',), (), ('3 nodal fields (scalar double, scalar int, tensor double), 2 cell fields (scalar int, vector double)',), 0)
+            h.bounds('histories %s; mesh sizes symbolic as in O1' % {k: v for k, v in HISTORIES.items()})
+            px.run_px(h, 'history', make_history_harness((d,)), cap=20, order=('core',), feas_ms=300, expect_goals=HISTORY_GOALS)
+        obligation(P, 'O4.history_interleaved_writes[degree %d]' % d, tiers=('quick', 'thorough'), cap=300)(ob)
+
+
+_register_history()
 
 
 # ------------------------------------------------------------------------------------------ value placement (O3)
@@ -1060,7 +1219,10 @@ class ValNP:
 
     def zeros(self, shape, dtype=float, **k):
         a = onp.empty(shape, dtype=object)
-        a.fill(0 if onp.dtype(dtype if dtype is not object else float).kind in 'iu' else 0.0)
+        # a buffer requested with the dtype of an (object) array of symbolic entries stands for that array's own type: its
+        # zero is written as the literal 0, which reads back as a zero of either kind; an explicit / default float
+        # request gives 0.0
+        a.fill(0 if onp.dtype(dtype).kind in 'iuO' else 0.0)
         return a
 
 
@@ -1112,7 +1274,8 @@ def make_value_harness(deg, dims=(1, 2, 3), sphere_counts=(0, 2), edge_counts=(0
         x = _draw(ex, 'x', (nNodes, 2))
         conn = _draw(ex, 'conn', (T, npe), 'I')
         F = dict(s=_draw(ex, 's', (nNodes,)), v=_draw(ex, 'v', (nNodes, d)), t=_draw(ex, 't', (nNodes, d, d)), i=_draw(ex, 'i', (nNodes, 1), 'I'),
-                 cs=_draw(ex, 'cs', (T, 1)), cv=_draw(ex, 'cv', (T, d)), ct=_draw(ex, 'ct', (T, d, d)))
+                 cs=_draw(ex, 'cs', (T, 1)), cv=_draw(ex, 'cv', (T, d)), ct=_draw(ex, 'ct', (T, d, d)),
+                 iv=_draw(ex, 'iv', (nNodes, d), 'I'), ci=_draw(ex, 'ci', (T,), 'I'), cit=_draw(ex, 'cit', (T, d, d), 'I'))
         sph, rad = _draw(ex, 'sphere', (nsph, 2)), _draw(ex, 'radius', (nsph,))
         edge = _draw(ex, 'edge', (nedge, 2), 'I')
         ex.note('degree %d, field spatial dimension %d, %d sphere(s), %d contact edge(s), %d mesh nodes (%d written), %d elements' % (deg, d, nsph, nedge, nNodes, len(out), T))
@@ -1154,6 +1317,9 @@ def make_value_harness(deg, dims=(1, 2, 3), sphere_counts=(0, 2), edge_counts=(0
                     W.add_cell_field('cs', conv(F['cs']), FT.SCALARS)
                     W.add_cell_field('cv', conv(F['cv']), FT.VECTORS)
                     W.add_cell_field('ct', conv(F['ct']), FT.TENSORS)
+                    W.add_nodal_field('iv', conv(F['iv']), FT.VECTORS, DT.LONG)
+                    W.add_cell_field('ci', conv(F['ci']), FT.SCALARS, DT.INT)
+                    W.add_cell_field('cit', conv(F['cit']), FT.TENSORS, DT.SHORT)
                     for k in range(nsph):
                         W.add_sphere(sph[k], rad[k])
                     for k in range(nedge):
@@ -1202,7 +1368,8 @@ def make_value_harness(deg, dims=(1, 2, 3), sphere_counts=(0, 2), edge_counts=(0
                 return [[A[r, i, j] if (i < d and j < d) else 0.0 for j in range(3)] for r in recs for i in range(3)]
 
             for where, name, kind, recs, npad in (('p', 's', 'SCALARS', out, nsph), ('p', 'v', 'VECTORS', out, nsph), ('p', 't', 'TENSORS', out, nsph), ('p', 'i', 'SCALARS', out, nsph),
-                                                  ('c', 'cs', 'SCALARS', range(T), nedge), ('c', 'cv', 'VECTORS', range(T), nedge), ('c', 'ct', 'TENSORS', range(T), nedge)):
+                                                  ('c', 'cs', 'SCALARS', range(T), nedge), ('c', 'cv', 'VECTORS', range(T), nedge), ('c', 'ct', 'TENSORS', range(T), nedge),
+                                                  ('p', 'iv', 'VECTORS', out, nsph), ('c', 'ci', 'SCALARS', range(T), nedge), ('c', 'cit', 'TENSORS', range(T), nedge)):
                 a = arrays.get((where, name))
                 if a is None or a[0] != kind or a[3] is None:
                     ex.goal('data_arrays_are_the_accepted_fields_in_order', Holds(False), info='array %s (%s) not found in the file' % (name, kind))
@@ -1214,6 +1381,11 @@ def make_value_harness(deg, dims=(1, 2, 3), sphere_counts=(0, 2), edge_counts=(0
                 _placed(ex, '%s_%s_values_in_place' % ('point' if where == 'p' else 'cell', kind.lower()[:-1]), got[:len(want)], want, what)
                 _placed(ex, 'sphere_point_records_are_default' if where == 'p' else 'contact_edge_cell_records_are_default', got[len(want):],
                         [[0.0] * ARRAY_KW[kind]] * (per * npad), what + ' (padding)')
+                if a[2] in INTEGER_TYPES:
+                    # type-honouring reading: every token of an integer-typed array (supplied entries and padding records) is an
+                    # integer literal / a term of integer sort
+                    ex.goal('integer_field_tokens_are_integer_literals', Holds(_kind_ok(a[2], a[3]['kinds'])),
+                            info='%s declared %r: tokens %s' % (what, a[2], [[_show(x) for x in r] for r in got][:12]))
             a = arrays.get(('p', 'sphere_radius'))
             if nsph:
                 _placed(ex, 'sphere_radius_values_in_place', lines(a[3]) if (a is not None and a[3] is not None) else [], [[0.0]] * len(out) + [[rad[k]] for k in range(nsph)], 'sphere_radius')
@@ -1226,7 +1398,7 @@ def make_value_harness(deg, dims=(1, 2, 3), sphere_counts=(0, 2), edge_counts=(0
 VALUE_GOALS = ['sections_in_legacy_order', 'point_coordinates_in_place', 'sphere_centres_in_place', 'element_connectivity_in_place', 'contact_edge_connectivity_in_place',
                'cell_types_in_place', 'point_scalar_values_in_place', 'point_vector_values_in_place', 'point_tensor_values_in_place', 'cell_scalar_values_in_place',
                'cell_vector_values_in_place', 'cell_tensor_values_in_place', 'sphere_point_records_are_default', 'contact_edge_cell_records_are_default',
-               'sphere_radius_values_in_place', DEFINED]
+               'sphere_radius_values_in_place', 'integer_field_tokens_are_integer_literals', DEFINED]
 
 
 def _register_values():
